@@ -545,6 +545,18 @@ def _run_rebalance(case):
         extra = broker.accrued_interest(when(t0, offset), False)
         if extra != 0 or snap(broker) != s0:
             res.fail("query at the instant of the last rebalance returned %r / changed the account" % (extra,))
+        # a rebalance dated EARLIER than the last accrual must be rejected and change nothing
+        back = 1 + (case.get("back", 0) % max(1, offset))
+        n0 = len(broker.track_record)
+        stale = Rebalancing(contracts=[], allocation=[], time=when(t0, offset - back))
+        try:
+            broker.rebalance(stale)
+            res.fail("a rebalance dated %d s before the last accrual was accepted (track record %d -> %d entries)" % (
+                back, n0, len(broker.track_record)))
+        except ValueError:
+            if snap(broker) != s0 or len(broker.track_record) != n0:
+                res.fail("a rejected back-dated rebalance changed the account or the track record")
+            res.tag("back-dated-rebalance-rejected")
     if offset >= 10 * YEAR:
         res.tag("decades")
     res.tag("1-interval" if done <= 1 else "2-5-intervals" if done <= 5 else "6+-intervals")
@@ -739,7 +751,8 @@ def rebalance_cases(draw, tier="quick"):
         gaps = draw(gap_lists(1, 20))
         flavours = draw(st.lists(st.sampled_from(["empty", "relative-empty", "same-target"]),
                                  min_size=len(gaps), max_size=len(gaps)))
-        return {"kind": "broker", "setup": setup, "r": r, "markup": markup, "t0": t0, "gaps": gaps, "flavours": flavours}
+        return {"kind": "broker", "setup": setup, "r": r, "markup": markup, "t0": t0, "gaps": gaps, "flavours": flavours,
+                "back": draw(st.integers(0, 10 ** 7))}
     gaps = draw(gap_lists(2, 8))
     prices = draw(st.lists(st.sampled_from([0.5, 8.0, 99.75, 100.0, 101.5, 4096.0]), min_size=len(gaps) + 1, max_size=len(gaps) + 1))
     cash = draw(st.one_of(st.sampled_from(CASH), st.floats(0.01, 1e9, allow_nan=False)))
